@@ -1,0 +1,100 @@
+//go:build verif
+
+package goja
+
+// White-box accessors for verification property C07 (arrays are spec arrays whatever the storage).
+// Add-only; compiled only with -tags verif.  Everything here is read-only.
+
+// VerifC07Info is a summary of the array bookkeeping that the Lean model's invariant talks about.
+// The "Actual*" fields are recomputed by scanning the storage, the others are the stored counters.
+type VerifC07Info struct {
+	Tag            string // "dense", "sparse", "goslice", "other"
+	Length         uint32 // stored length
+	N              int    // len(values) or len(items)
+	Cap            int    // cap(values) or cap(items)
+	ObjCount       int    // stored objCount (dense only; -1 for sparse)
+	PropValueCount int    // stored propValueCount
+	ActualPresent  int    // number of non-nil values / items with non-nil value
+	ActualProps    int    // number of *valueProperty elements
+	Sorted         bool   // sparse: items strictly increasing by idx (dense: true)
+	MaxIdxPlus1    uint32 // 1 + greatest present index (0 if none)
+	NilItems       int    // sparse: items whose value is nil (must be 0)
+	LengthWritable bool
+	Extensible     bool
+}
+
+// VerifC07ArrayInfo reports the storage tag and bookkeeping counters of an Array object.
+func VerifC07ArrayInfo(o *Object) VerifC07Info {
+	var r VerifC07Info
+	if o == nil {
+		r.Tag = "other"
+		return r
+	}
+	switch a := o.self.(type) {
+	case *arrayObject:
+		r.Tag = "dense"
+		r.Length = a.length
+		r.N = len(a.values)
+		r.Cap = cap(a.values)
+		r.ObjCount = a.objCount
+		r.PropValueCount = a.propValueCount
+		r.Sorted = true
+		r.LengthWritable = a.lengthProp.writable
+		r.Extensible = a.extensible
+		for i, v := range a.values {
+			if v != nil {
+				r.ActualPresent++
+				r.MaxIdxPlus1 = uint32(i) + 1
+				if _, ok := v.(*valueProperty); ok {
+					r.ActualProps++
+				}
+			}
+		}
+	case *sparseArrayObject:
+		r.Tag = "sparse"
+		r.Length = a.length
+		r.N = len(a.items)
+		r.Cap = cap(a.items)
+		r.ObjCount = -1
+		r.PropValueCount = a.propValueCount
+		r.Sorted = true
+		r.LengthWritable = a.lengthProp.writable
+		r.Extensible = a.extensible
+		for i, it := range a.items {
+			if i > 0 && a.items[i-1].idx >= it.idx {
+				r.Sorted = false
+			}
+			if it.value == nil {
+				r.NilItems++
+				continue
+			}
+			r.ActualPresent++
+			if it.idx+1 > r.MaxIdxPlus1 {
+				r.MaxIdxPlus1 = it.idx + 1
+			}
+			if _, ok := it.value.(*valueProperty); ok {
+				r.ActualProps++
+			}
+		}
+	case *objectGoSlice:
+		r.Tag = "goslice"
+		r.N = len(*a.data)
+		r.Length = uint32(r.N)
+		r.Sorted = true
+		r.Extensible = a.extensible
+	default:
+		r.Tag = "other"
+		r.Sorted = true
+	}
+	return r
+}
+
+// VerifC07StdFastPath reports whether checkStdArrayObj / checkStdArrayObjWithProto currently accept
+// the object (i.e. whether Array.prototype methods would take their no-holes fast paths on it).
+func VerifC07StdFastPath(o *Object) (std bool, withProto bool) {
+	if o == nil {
+		return false, false
+	}
+	r := o.runtime
+	return r.checkStdArrayObj(o) != nil, r.checkStdArrayObjWithProto(o) != nil
+}
